@@ -290,6 +290,9 @@ class C20(Harness):
             g = NF("last", sp=w)
             out["naive.sp"] = attempt(lambda: g.fit(good), lambda: g.is_fitted)
             out["sliding"] = attempt(lambda: list(sp.SlidingWindowSplitter(fh=1, window_length=w).split(good)))
+            # the horizon as an unsorted pandas index: its largest step (2) counts, wherever it stands
+            out["sliding.unsorted-index-fh"] = attempt(lambda: list(sp.SlidingWindowSplitter(fh=pd.Index([2, 1]), window_length=w).split(good)))
+            out["expanding.unsorted-index-fh"] = attempt(lambda: list(sp.ExpandingWindowSplitter(fh=pd.Index([2, 1]), initial_window=w).split(good)))
             out["expanding"] = attempt(lambda: list(sp.ExpandingWindowSplitter(fh=1, initial_window=w).split(good)))
             # starting with an empty window does not waive the requirement that a full window plus horizon fits
             out["sliding.nostart"] = attempt(lambda: list(sp.SlidingWindowSplitter(fh=1, window_length=w, start_with_window=False).split(good)))
@@ -334,6 +337,22 @@ class C20(Harness):
             out["ens:empty"] = ens([])
             out["ens:none"] = ens(None)
             out["ens:not-a-forecaster"] = ens([("a", Reg())])
+            class Duck(BaseEstimator):
+                """looks like a forecaster (fit / update / predict with the forecasting signature) but is not one"""
+
+                def fit(self, y, X=None, fh=None):
+                    self._c = y.index[-1]
+                    return self
+
+                def update(self, y, X=None, update_params=True):
+                    return self
+
+                def predict(self, fh=None, X=None, return_pred_int=False, alpha=0.05):
+                    return pd.Series([0.0], index=pd.Index([self._c + 1]))
+
+            out["ens:duck-not-a-forecaster"] = ens([("a", Duck())])
+            out["ens:duck-after-a-forecaster"] = ens([("a", Member(p=1)), ("b", Duck())])
+            out["ens:duck-last-of-three"] = ens([("a", Member(p=1)), ("b", Member(p=2)), ("c", Duck())])
             out["ens:transformer-member"] = ens([("a", T(tag=1))])
             out["pipe:duplicate-names"] = pipe([("t", T(tag=1)), ("t", Member(p=1))])
             out["pipe:dunder-name"] = pipe([("t__x", T(tag=1)), ("f", Member(p=1))])
@@ -440,6 +459,8 @@ class C20(Harness):
             verdict("sliding", out["sliding"], w + 1 > n)
             verdict("expanding", out["expanding"], w + 1 > n)
             verdict("sliding.nostart", out["sliding.nostart"], w + 1 > n)
+            verdict("sliding.unsorted-index-fh", out["sliding.unsorted-index-fh"], w + 2 > n)
+            verdict("expanding.unsorted-index-fh", out["expanding.unsorted-index-fh"], w + 2 > n)
             verdict("update_predict", out["update_predict"], w + 1 > n)
             verdict("reduction", out["reduction"], w + 1 > n)
             verdict("cutoff", out["cutoff"], (w - 1) + 1 > n - 1)
